@@ -260,6 +260,21 @@ class SchedAdapter:
             for t in set(after[tag][1]) - set(before[tag][1]):
                 removed.pop((tag, t), None)
         mon['removed'] = tuple(sorted(removed.items()))
+        # provenance: who last removed a node from the work queue
+        deq = dict(mon.get('dequeued', ()))
+        qb, qa = set(s['que']), set(ns['que'])
+        for tag in qb - qa:
+            by = 'unknown'
+            if any(e[0] == 'complete' and e[1] == tag for e in self.log):
+                by = 'complete'
+            elif any(e[0] == 'purge' for e in self.log):
+                by = 'purge'
+            elif any(e[0] == 'organize' for e in self.log):
+                by = 'organize'
+            deq[tag] = by
+        for tag in qa:
+            deq.pop(tag, None)
+        mon['dequeued'] = tuple(sorted(deq.items()))
         # taint: the first violation on a path is the root; later ones on the
         # same path are reported as consequences ("//after:<root>")
         taint = mon.get('taint', '')
@@ -366,7 +381,8 @@ class SchedAdapter:
             lost = [e for e in self.log if e[0] == 'log.error']
             if lost:
                 why = dict(s['mon'].get('removed', ())).get((j, t), 'still-in-doing')
-                report(f'C03/reply-dropped/unit-left-doing-by={why}',
+                dq = dict(s['mon'].get('dequeued', ())).get(j, 'never-queued')
+                report(f'C03/reply-dropped/unit-left-doing-by={why}/dequeued-by={dq}',
                        f'reply for {j}[{t}] run {r}: {lost[0][1]}')
             elif len(apps) != 1:
                 report('C03/reply-recorded-%d-times' % len(apps),
